@@ -210,6 +210,8 @@ def safe_check(mod, case):
                 if r2 is not None and not r2["ok"]:
                     case["oeo"] = how
                     r = r2
+                elif r2 is not None:
+                    r = dict(r, extra=dict(r.get("extra") or {}, second_passes_after_in_place_edit=1))
             leak = _C.leaked_options()
             if r["ok"] and leak and isinstance(case, dict):
                 # the calls of this case left global option state behind.  That is not itself what the properties forbid - a LATER call
@@ -245,6 +247,10 @@ def account(mod, known, st, case, r, cj=None):
     st.states.add(digest8(jdump([sk(case) if sk else case.get("a", case), case.get("vshift", 0)])))
     for k, v in (r.get("extra") or {}).items():
         st.extra[k] += v
+    if isinstance(case, dict):      # how many cases ran with which history device (see safe_check / run_shard)
+        for k in ("after", "decoy", "oeo", "repeat", "vshift"):
+            if case.get(k):
+                st.extra["cases_with_" + k] += 1
     if not r["ok"]:
         cls = classify(mod, known, case, r.get("detail", ""))
         if cls:
